@@ -120,7 +120,9 @@ var c03Breakers = []string{"{'a':1", "{'a':", "{'a'", "g9(1,", "g9(", "[1,2", "[
 	"1 ? 2 : (", "x[1][", "{'a': [1,", "`{%", "`{", "f(`", "- ", "+ (", "~", "@@", "1 2 3", ")", "]", "}", "else { 1 }", ", 2",
 	// continuation tails: an operator (or a dice modifier) followed by an operand that breaks off
 	"+ 'abc", "+ \"abc", "- `x{3", "* {'a':1", "+ {'a':", "|| [1,", "?? (2", "== 'x", "+ (2", "* (2+", "&& `a{", "< {'k'", "+ \x1eab", "? 1 : 'z", "? 'q",
-	"k(2", "kh(3 reason", "q(1+", "min(2", "max(x", "dl(n", "(2", "[1", ".x(", "d(2", "d(x"}
+	"k(2", "kh(3 reason", "q(1+", "min(2", "max(x", "dl(n", "(2", "[1", ".x(", "d(2", "d(x",
+	// a complete operand followed at once by an identifier character: a count or operand that is compiled and then not taken
+	"(2d1)d1", "(3)x", "(1d2)k", "(2)a", "2x", "(nn)d"}
 
 type flagCfg struct{ wod, coc, fate, dc, nostmt bool }
 
@@ -128,7 +130,7 @@ type flagCfg struct{ wod, coc, fate, dc, nostmt bool }
 func c03Endings() []string {
 	prelude := "arr = [[7,8],[9,10]]; dd = {'a': [1,2], 'b': {'c': 3}}; func ff(n) { [n, n+1] }; ss = 'abc'; nn = 4; "
 	ends := []string{"5", "nn", "arr[0]", "arr[0][1]", "arr[1:]", "ff(2)", "ff(2)[0]", "arr.len()", "arr[0].len()", "dd.a", "dd.a[0]", "dd['b'].c", "(nn)", "(arr)[0]", "'xy'", "ss[1]", "`a{nn}`",
-		"[1,2]", "[1,2][0]", "{'k': 1}", "{'k': [1]}.k", "2d1", "(2)d1", "-nn", "arr[0] + arr[1]", "nn ? arr[0] : 1", "this"}
+		"[1,2]", "[1,2][0]", "{'k': 1}", "{'k': [1]}.k", "2d1", "(2)d1", "b", "p", "b2", "3a10", "a10", "2c5", "f", "-nn", "arr[0] + arr[1]", "nn ? arr[0] : 1", "this"}
 	ctxs := []string{"%s", "x = %s", "100 + %s", "-%s", "nn ? 1 : %s", "nn && %s", "nn ?? %s", "y = x = %s", "dd.z = %s", "arr[0] = %s", "1 < %s", "&cv = %s"}
 	var out []string
 	for _, e := range ends {
